@@ -214,25 +214,19 @@ pub fn builtin_join(sep: IndexableVal, arr: ArrValue) -> Result<IndexableVal> {
 			for item in arr.iter() {
 				let item = item?.clone();
 				if let Val::Arr(items) = item {
+					// `running + sep + arr[i]`: array concatenation evaluates no element
 					if !first {
-						out.reserve(joiner_items.len());
-						// TODO: extend
-						for item in joiner_items.iter() {
-							out.push(item?);
-						}
+						out.extend(joiner_items.iter_lazy());
 					}
 					first = false;
-					out.reserve(items.len());
-					for item in items.iter() {
-						out.push(item?);
-					}
+					out.extend(items.iter_lazy());
 				} else if matches!(item, Val::Null) {
 				} else {
 					bail!("in std.join all items should be arrays");
 				}
 			}
 
-			IndexableVal::Arr(out.into())
+			IndexableVal::Arr(ArrValue::lazy(out))
 		}
 		IndexableVal::Str(sep) => {
 			let mut out = String::new();
